@@ -37,7 +37,7 @@ Definition ok_rr (c : rrcase) : bool :=
 Definition mismatches_rr := mismatches ok_rr.
 
 (* ---- sticky ---- *)
-Inductive sobs := OErr | OPanic | OPlan (p : plan).
+Inductive sobs := OErr | OPanic | OHang | OPlan (p : plan).   (* OHang: Plan did not return within the watchdog time *)
 Record scase := {
   sc_fx : bool;          (* the tree contains the prev-owner repair (probed by the harness) *)
   sc_hooked : bool;      (* the sticky.iter.* call sites reported the iteration orders *)
@@ -47,6 +47,7 @@ Definition ok_sticky (c : scase) : bool :=
   match sticky_plan sticky_fuel (sc_fx c) (sc_oracle c) (sc_members c) (sc_topics c), sc_obs c with
   | SErr, OErr => true
   | SPanic, OPanic => true
+  | SFuel _, OHang => true
   | SOk p, OPlan q =>
     if sc_hooked c then plan_eqb p q && (negb (sc_fx c) || valid_planb (sc_members c) (sc_topics c) q)
     else negb (sc_fx c) || valid_planb (sc_members c) (sc_topics c) q
